@@ -23,6 +23,13 @@ def jobs(tier):
             js.append(l2_job("C04.%s.v%d" % (nm, v), "l2/c04_lifetime.c", defines={"SCEN": sc, "V": v},
                              symbolic=["auto-free bit", "errno left by callbacks (int)", "quit code", "payload contents"],
                              bounds="scenario %s variant %d" % (nm, v), unwind=13, leak=True, kf=KF.get((sc, v), [])))
+    for act, order in (((2, 1),) if tier == "quick" else ((2, 0), (2, 1), (2, 2))):   # ACT 1 (nested m_ctx_deregister): no verdict in 900 s, not registered
+        js.append(l2_job("C04.nestedteardown.act%d.o%d.n2" % (act, order), "l2/c04_nestedteardown.c", defines={"ACT": act, "ORDER": order, "NM": 2},
+                         symbolic=["errno left by callbacks (int)"], bounds="2 modules: the first stop callback deregisters the LAST module of the non-persistent context (nested context release)", unwind=13, leak=True))
+        js.append(l2_job("C04.nestedteardown.act%d.o%d" % (act, order), "l2/c04_nestedteardown.c", defines={"ACT": act, "ORDER": order},
+                         symbolic=["errno left by callbacks (int)"],
+                         bounds="3 modules with user references; a stop callback re-enters the teardown (%s); release order %d" %
+                                ("m_ctx_deregister" if act == 1 else "m_mod_deregister of another module", order), unwind=13, leak=True))
     return js
 
 
